@@ -23,6 +23,13 @@
                                          errs++, errsRecent++; errs > WorkerErrKill => Add
                                          KillingWorker{k} (a kill REQUEST)
      EErrAnon        ErrWorker without a tracked address
+     EErrClear       Remove [ErrWorker, Exception] (queued by ErrWorkerState unless another
+                     Exception is already queued)
+
+   ErrWorker is NOT a Multi state: while it is active, adding it again does not call
+   ErrWorkerState. An EErr that arrives while [s_errworker] is set is therefore not
+   counted (it only bumps the ghost [w_delivered]); [s_lost] remembers that this
+   happened.
      EFlip k b       the worker's Ready state as mirrored by the RPC NetMach changes
      EExpire k       the recent-error cache of k is purged (TTL + janitor)
      EErrsExpire k   the error cache of k is purged
@@ -44,10 +51,12 @@ Import ListNotations.
 Record cfg := { c_min : N; c_max : N; c_errkill : N }.
 
 Record fixes := {
-  fx_insert_gate : bool   (* SetWorkerEnter refuses a NEW address when len(workers) >= Max *)
+  fx_insert_gate : bool;  (* SetWorkerEnter refuses a NEW address when len(workers) >= Max *)
+  fx_err_multi : bool     (* ErrWorker is declared Multi: ErrWorkerState runs for every error *)
 }.
-Definition no_fixes : fixes := {| fx_insert_gate := false |}.
-Definition insert_gate_fix : fixes := {| fx_insert_gate := true |}.
+Definition no_fixes : fixes := {| fx_insert_gate := false; fx_err_multi := false |}.
+Definition insert_gate_fix : fixes := {| fx_insert_gate := true; fx_err_multi := false |}.
+Definition err_multi_fix : fixes := {| fx_insert_gate := false; fx_err_multi := true |}.
 
 (* Supervisor.min() *)
 Definition min_eff (c : cfg) : N := if (c_max c <? c_min c)%N then c_max c else c_min c.
@@ -55,13 +64,15 @@ Definition min_eff (c : cfg) : N := if (c_max c <? c_min c)%N then c_max c else 
 Record winfo := {
   w_conn : bool;      (* info.rpc != nil (set by WorkerForked) *)
   w_ready : bool;     (* mirrored Ready state of the worker *)
-  w_errs : N;         (* errs.ItemCount() *)
+  w_errs : N;         (* errs.ItemCount(): errors ErrWorkerState has counted *)
   w_recent : N;       (* errsRecent.ItemCount() *)
-  w_killreq : bool    (* ghost: a kill was requested for this entry *)
+  w_killreq : bool;   (* ghost: a kill was requested for this entry *)
+  w_delivered : N     (* ghost: countable errors raised for this entry, counted or not *)
 }.
 
 Definition fresh_info : winfo :=
-  {| w_conn := false; w_ready := false; w_errs := 0; w_recent := 0; w_killreq := false |}.
+  {| w_conn := false; w_ready := false; w_errs := 0; w_recent := 0; w_killreq := false;
+     w_delivered := 0 |}.
 
 Inductive event :=
 | EForkReq
@@ -74,6 +85,7 @@ Inductive event :=
 | EKilling (k : nat)
 | EErr (k : nat) (counted : bool)
 | EErrAnon
+| EErrClear
 | EFlip (k : nat) (b : bool)
 | EExpire (k : nat)
 | EErrsExpire (k : nat)
@@ -87,12 +99,46 @@ Record st := {
   s_peak : nat;                    (* ghost: largest number of forks in flight so far *)
   s_foreign : bool;                (* ghost: an entry was inserted that no started fork accounts for *)
   s_poolready : bool;              (* PoolReady active *)
+  s_errworker : bool;              (* ErrWorker active *)
+  s_lost : bool;                   (* ghost: a countable error of a tracked worker was not counted *)
   s_killlog : list nat             (* ghost: keys of the kill requests, newest first *)
 }.
 
 Definition init_st : st :=
   {| s_workers := []; s_inflight := []; s_peak := 0; s_foreign := false;
-     s_poolready := false; s_killlog := [] |}.
+     s_poolready := false; s_errworker := false; s_lost := false; s_killlog := [] |}.
+
+(* ---- field updates *)
+
+Definition upd (s : st) (w : list (nat * winfo)) : st :=
+  {| s_workers := w; s_inflight := s_inflight s; s_peak := s_peak s; s_foreign := s_foreign s;
+     s_poolready := s_poolready s; s_errworker := s_errworker s; s_lost := s_lost s;
+     s_killlog := s_killlog s |}.
+
+Definition set_inflight (s : st) (l : list nat) (peak : nat) (foreign : bool) : st :=
+  {| s_workers := s_workers s; s_inflight := l; s_peak := peak; s_foreign := foreign;
+     s_poolready := s_poolready s; s_errworker := s_errworker s; s_lost := s_lost s;
+     s_killlog := s_killlog s |}.
+
+Definition set_poolready (s : st) (b : bool) : st :=
+  {| s_workers := s_workers s; s_inflight := s_inflight s; s_peak := s_peak s;
+     s_foreign := s_foreign s; s_poolready := b; s_errworker := s_errworker s;
+     s_lost := s_lost s; s_killlog := s_killlog s |}.
+
+Definition set_errworker (s : st) (b : bool) : st :=
+  {| s_workers := s_workers s; s_inflight := s_inflight s; s_peak := s_peak s;
+     s_foreign := s_foreign s; s_poolready := s_poolready s; s_errworker := b;
+     s_lost := s_lost s; s_killlog := s_killlog s |}.
+
+Definition set_lost (s : st) : st :=
+  {| s_workers := s_workers s; s_inflight := s_inflight s; s_peak := s_peak s;
+     s_foreign := s_foreign s; s_poolready := s_poolready s; s_errworker := s_errworker s;
+     s_lost := true; s_killlog := s_killlog s |}.
+
+Definition log_kill (s : st) (k : nat) : st :=
+  {| s_workers := s_workers s; s_inflight := s_inflight s; s_peak := s_peak s;
+     s_foreign := s_foreign s; s_poolready := s_poolready s; s_errworker := s_errworker s;
+     s_lost := s_lost s; s_killlog := k :: s_killlog s |}.
 
 (* ---- the map *)
 
@@ -129,15 +175,27 @@ Definition ready_bound (s : st) : N :=
 Definition rem (k : nat) (l : list nat) : list nat := filter (fun x => negb (Nat.eqb x k)) l.
 Definition has (k : nat) (l : list nat) : bool := existsb (Nat.eqb k) l.
 
-Definition upd (s : st) (w : list (nat * winfo)) : st :=
-  {| s_workers := w; s_inflight := s_inflight s; s_peak := s_peak s; s_foreign := s_foreign s;
-     s_poolready := s_poolready s; s_killlog := s_killlog s |}.
-
 Definition on_worker (s : st) (k : nat) (f : winfo -> winfo) : st :=
   match wfind k (s_workers s) with
   | Some i => upd s (wset k (f i) (s_workers s))
   | None => s
   end.
+
+Definition rekeyed (i : winfo) : winfo :=
+  {| w_conn := true; w_ready := true; w_errs := w_errs i; w_recent := w_recent i;
+     w_killreq := w_killreq i; w_delivered := w_delivered i |}.
+
+(* ErrWorkerState's bookkeeping for a countable error *)
+Definition counted_err (c : cfg) (i : winfo) : winfo :=
+  {| w_conn := w_conn i; w_ready := w_ready i; w_errs := w_errs i + 1;
+     w_recent := w_recent i + 1;
+     w_killreq := w_killreq i || (c_errkill c <? w_errs i + 1)%N;
+     w_delivered := w_delivered i + 1 |}.
+
+(* the error was raised but ErrWorkerState did not run *)
+Definition lost_err (i : winfo) : winfo :=
+  {| w_conn := w_conn i; w_ready := w_ready i; w_errs := w_errs i; w_recent := w_recent i;
+     w_killreq := w_killreq i; w_delivered := w_delivered i + 1 |}.
 
 (* ---- gates (negotiation handlers) *)
 
@@ -155,68 +213,61 @@ Definition gate (fx : fixes) (c : cfg) (s : st) (e : event) : bool :=
 
 (* ---- effects of an accepted event (final handlers) *)
 
-Definition effect (c : cfg) (s : st) (e : event) : st :=
+Definition effect (fx : fixes) (c : cfg) (s : st) (e : event) : st :=
   match e with
   | EForkReq => s
   | EForking k =>
     let infl := k :: s_inflight s in
-    {| s_workers := s_workers s; s_inflight := infl; s_peak := Nat.max (s_peak s) (length infl);
-       s_foreign := s_foreign s; s_poolready := s_poolready s; s_killlog := s_killlog s |}
+    set_inflight s infl (Nat.max (s_peak s) (length infl)) (s_foreign s)
   | ESetIns k =>
     let known := has k (s_inflight s) ||
                  (match wfind k (s_workers s) with Some _ => true | None => false end) in
-    {| s_workers := wset k fresh_info (s_workers s); s_inflight := rem k (s_inflight s);
-       s_peak := s_peak s; s_foreign := s_foreign s || negb known;
-       s_poolready := s_poolready s; s_killlog := s_killlog s |}
+    upd (set_inflight s (rem k (s_inflight s)) (s_peak s) (s_foreign s || negb known))
+        (wset k fresh_info (s_workers s))
   | ESetDel k => upd s (wdel k (s_workers s))
   | EForkFail k =>
-    {| s_workers := s_workers s; s_inflight := rem k (s_inflight s); s_peak := s_peak s;
-       s_foreign := s_foreign s; s_poolready := s_poolready s; s_killlog := s_killlog s |}
+    set_errworker (set_inflight s (rem k (s_inflight s)) (s_peak s) (s_foreign s)) true
   | ERekey b a =>
     match wfind b (s_workers s) with
-    | Some i =>
-      upd s (wset a {| w_conn := true; w_ready := true; w_errs := w_errs i; w_recent := w_recent i;
-                       w_killreq := w_killreq i |} (wdel b (s_workers s)))
+    | Some i => upd s (wset a (rekeyed i) (wdel b (s_workers s)))
     | None => s
     end
   | EKilled k => upd s (wdel k (s_workers s))
   | EKilling _ => s
   | EErr k counted =>
+    let handled := fx_err_multi fx || negb (s_errworker s) in
     if counted then
       match wfind k (s_workers s) with
       | Some i =>
-        let over := (c_errkill c <? w_errs i + 1)%N in
-        {| s_workers := wset k {| w_conn := w_conn i; w_ready := w_ready i; w_errs := w_errs i + 1;
-                                  w_recent := w_recent i + 1; w_killreq := w_killreq i || over |}
-                             (s_workers s);
-           s_inflight := s_inflight s; s_peak := s_peak s; s_foreign := s_foreign s;
-           s_poolready := s_poolready s;
-           s_killlog := if over then k :: s_killlog s else s_killlog s |}
-      | None => s
+        if handled then
+          let s1 := set_errworker (upd s (wset k (counted_err c i) (s_workers s))) true in
+          if (c_errkill c <? w_errs i + 1)%N then log_kill s1 k else s1
+        else set_lost (upd s (wset k (lost_err i) (s_workers s)))
+      | None => set_errworker s true
       end
-    else s
-  | EErrAnon => s
+    else set_errworker s true
+  | EErrAnon => set_errworker s true
+  | EErrClear => set_errworker s false
   | EFlip k b =>
     on_worker s k (fun i => {| w_conn := w_conn i; w_ready := b; w_errs := w_errs i;
-                               w_recent := w_recent i; w_killreq := w_killreq i |})
+                               w_recent := w_recent i; w_killreq := w_killreq i;
+                               w_delivered := w_delivered i |})
   | EExpire k =>
     on_worker s k (fun i => {| w_conn := w_conn i; w_ready := w_ready i; w_errs := w_errs i;
-                               w_recent := 0; w_killreq := w_killreq i |})
+                               w_recent := 0; w_killreq := w_killreq i;
+                               w_delivered := w_delivered i |})
   | EErrsExpire k =>
     on_worker s k (fun i => {| w_conn := w_conn i; w_ready := w_ready i; w_errs := 0;
-                               w_recent := w_recent i; w_killreq := w_killreq i |})
-  | ETryReady =>
-    {| s_workers := s_workers s; s_inflight := s_inflight s; s_peak := s_peak s;
-       s_foreign := s_foreign s; s_poolready := true; s_killlog := s_killlog s |}
-  | ETryUnready =>
-    {| s_workers := s_workers s; s_inflight := s_inflight s; s_peak := s_peak s;
-       s_foreign := s_foreign s; s_poolready := false; s_killlog := s_killlog s |}
+                               w_recent := w_recent i; w_killreq := w_killreq i;
+                               w_delivered := 0 |})
+  | ETryReady => set_poolready s true
+  | ETryUnready => set_poolready s false
   | EOther => s
   end.
 
 (* one event: (state after, accepted) *)
 Definition step (fx : fixes) (c : cfg) (s : st) (e : event) : st * bool :=
-  if gate fx c s e then (effect c s e, true) else (s, false).
+  if gate fx c s e then (effect fx c s e, true) else (s, false).
 
 Definition run_from (fx : fixes) (c : cfg) (s : st) (evs : list event) : st :=
   fold_left (fun s e => fst (step fx c s e)) evs s.
